@@ -426,18 +426,38 @@ func (op *redirOp) exec(fm *Frame, fops *[]formOwnedPort) Exception {
 		}
 	}
 
-	dstPort := growAccess(&fm.ports, dst)
-	dstFop := growAccess(fops, dst)
-	if *dstPort != nil {
-		dstFop.close(*dstPort)
-		*dstFop = formOwnedPort{File: false, Chan: false}
-	}
-
+	var srcFd int
 	if op.srcIsFd {
-		src, err := evalForFd(fm, op.srcOp, true, "redirection source")
+		var err error
+		srcFd, err = evalForFd(fm, op.srcOp, true, "redirection source")
 		if err != nil {
 			return fm.errorp(op, err)
 		}
+		if srcFd == dst && dst < len(fm.ports) && fm.ports[dst] != nil {
+			// Duplicating a port onto itself changes nothing.
+			return nil
+		}
+	}
+
+	dstPort := growAccess(&fm.ports, dst)
+	if *dstPort != nil {
+		oldFop := *growAccess(fops, dst)
+		if oldFop.File || oldFop.Chan {
+			if other := otherPortIndex(fm.ports, dst); other != -1 {
+				// Another port still refers to the same port (after n>&m):
+				// hand the ownership over to it instead of closing the port
+				// now.
+				*growAccess(fops, other) = oldFop
+			} else {
+				oldFop.close(*dstPort)
+			}
+			*growAccess(fops, dst) = formOwnedPort{File: false, Chan: false}
+		}
+	}
+	dstFop := growAccess(fops, dst)
+
+	if op.srcIsFd {
+		src := srcFd
 		switch {
 		case src == -1:
 			// close
@@ -499,6 +519,17 @@ func (op *redirOp) exec(fm *Frame, fops *[]formOwnedPort) Exception {
 		*dstPort = fileRedirPort(op.mode, srcFile)
 	}
 	return nil
+}
+
+// Returns the index of a port other than ports[i] that is the same port as
+// ports[i], or -1 if there is none.
+func otherPortIndex(ports []*Port, i int) int {
+	for j, port := range ports {
+		if j != i && port == ports[i] {
+			return j
+		}
+	}
+	return -1
 }
 
 // Creates a port that only have a file component, populating the
